@@ -447,3 +447,13 @@ Print Assumptions C18_eom_only_after_64k_differs.
 Theorem C18_eom_only_after_64k_same_at_64k : forall c : list Z, zlen c = 65536 -> open_put_64k c = open_put_c c.
 Proof. exact open_put_64k_same_at_64k. Qed.
 Print Assumptions C18_eom_only_after_64k_same_at_64k.
+
+Theorem C18_open_put_reassembles : forall (c : list Z) (r : list bool), bytes_ok c ->
+  get_open_bytes (open_put_c c ++ r) = Some (c, r).
+Proof. exact open_put_c_reassembles. Qed.
+Print Assumptions C18_open_put_reassembles.
+
+Theorem C18_eom_only_after_64k_starves : forall (c : list Z) (m : Z), 1 <= m <= 3 -> zlen c = m * 16384 -> bytes_ok c ->
+  get_open_bytes (open_put_64k c) = None.
+Proof. exact open_put_64k_starves. Qed.
+Print Assumptions C18_eom_only_after_64k_starves.
